@@ -144,7 +144,7 @@ impl Property for MultiRoundTrip {
         "multi-builder-roundtrip".into()
     }
     fn cases(&self, tier: Tier) -> u64 {
-        tier.pick(2_000, 40_000)
+        tier.pick(2_000, 30_000)
     }
     fn strategy(&self, _: &Ctx) -> BoxedStrategy<MultiCase> {
         value_profile()
@@ -336,7 +336,7 @@ impl Property for BoundarySizes {
         "boundary-sizes".into()
     }
     fn cases(&self, tier: Tier) -> u64 {
-        tier.pick(1_200, 25_000)
+        tier.pick(1_200, 15_000)
     }
     fn strategy(&self, _: &Ctx) -> BoxedStrategy<SizeCase> {
         let klen = prop_oneof![2 => Just(KeyLen::Short), 2 => Just(KeyLen::MaxMinus1), 4 => Just(KeyLen::Max), 3 => Just(KeyLen::MaxPlus1)];
